@@ -404,6 +404,8 @@ def gen_c09_large(seed, index):
            "r": [rng.choice([0, 1]) for _ in range(n)],
            "c": [[float(rng.randint(0, 4)) for _ in range(d)] for _ in range(n)] if (npk or lpk in G.LIN_KINDS) else None}
     m = rng.choice([1025, 1025, 2049, 1024, 513])
+    if lpk not in G.LIN_KINDS and npk is None:
+        m = rng.choice([1025, 2049])          # (the context-free policies appear once per eight scenarios)
     contextual = fit["c"] is not None
     # (context-free policies accept contexts too: one result per row)
     q = {"op": "pexp", "c": [[float(rng.randint(0, 4)) for _ in range(d)] for _ in range(m)] if (contextual or index % 2 == 0) else None}
@@ -1101,7 +1103,8 @@ def gen_huge(seed, index, np_kinds, name, det=True, sizes=None):
         npc["n"] = rng.choice([3, 5])
     if npc["k"] == "tree":
         npc["params"] = {"max_depth": 1}
-    n1, n2, m = rng.choice(sizes or [(1100, 30, 65), (2100, 513, 520), (2600, 30, 520), (1500, 700, 65)])
+    sizes = sizes or [(1100, 30, 65), (2100, 513, 520), (2600, 30, 520), (1500, 700, 65)]
+    n1, n2, m = sizes[(index + index // len(np_kinds)) % len(sizes)]        # every policy meets every size over the indices
     if npc["k"] == "knn" and det:
         pt = lambda: [round(rng.uniform(0, 12), 3), round(rng.uniform(0, 12), 3)]      # noqa: E731  (no ties)
     else:
@@ -1566,6 +1569,28 @@ def gen_c02_large(seed, index):
     return {"cfg": {"lp": lp, "np": None, "arms": arms, "seed": rng.randint(0, 10 ** 6), "binz": None, "n_jobs": 1},
             "ops": [{"op": "fit", "d": dec, "r": rew, "c": ctx}],
             "queries": [{"op": "pexp", "c": [[1.0, 2.0], [4.0, 0.0], [2.5, 3.0]]}]}
+
+
+def gen_c02_wide(seed, index):
+    """16 (or 9) features, l2_lambda != 1: a fit, then an arm that receives its rows in thin batches (one or two rows),
+    then a larger batch for the same arm - compared with the normal equations of the whole history"""
+    w = gen_c06_wide(seed, index)
+    rng = random.Random("%s/C02-wide/%s" % (seed, index))
+    rows, cuts = w["rows"], w["cuts"]
+    n = len(rows["d"])
+    bounds = [0] + cuts + [n]
+    ops = []
+    for j in range(len(bounds) - 1):
+        a, b = bounds[j], bounds[j + 1]
+        ops.append({"op": "fit" if j == 0 else "pfit", "d": rows["d"][a:b], "r": rows["r"][a:b], "c": rows["c"][a:b]})
+    d = len(rows["c"][0])
+    k = rng.choice([12, 20])
+    ops.append({"op": "pfit", "d": [4 if i % 2 == 0 else rng.choice([1, 2, 3]) for i in range(k)], "r": [float(rng.choice([0, 1, 2, 3])) for _ in range(k)],
+                "c": [[float(rng.randint(0, 4)) for _ in range(d)] for _ in range(k)]})
+    cfg = dict(w["cfg"], lp=dict(w["cfg"]["lp"]))
+    if cfg["lp"]["k"] == "lints":
+        cfg["lp"]["alpha"] = 1e-9
+    return {"cfg": cfg, "ops": ops, "queries": w["queries"]}
 
 
 def _ridge_oracle(cfg, arms, d, r, c, query):
